@@ -266,19 +266,25 @@ pub(crate) fn decouple_v_models(
 }
 
 pub(crate) fn transform_text(text: &str) -> String {
-    let jsx_text_value = text.replace('\t', " ");
-    let mut jsx_text_lines = jsx_text_value.lines().enumerate().peekable();
+    let jsx_text_value = text
+        .replace("\r\n", "\n")
+        .replace('\r', "\n")
+        .replace('\t', " ");
+    let jsx_text_lines = jsx_text_value.split('\n').collect::<Vec<_>>();
+    let last_index = jsx_text_lines.len() - 1;
 
     let mut lines = vec![];
-    while let Some((index, line)) = jsx_text_lines.next() {
+    for (index, line) in jsx_text_lines.into_iter().enumerate() {
+        // only whitespace touching a line break is insignificant
         let line = if index == 0 {
-            // first line
-            line.trim_end()
-        } else if jsx_text_lines.peek().is_none() {
-            // last line
-            line.trim_start()
+            line
         } else {
-            line.trim()
+            line.trim_start_matches(' ')
+        };
+        let line = if index == last_index {
+            line
+        } else {
+            line.trim_end_matches(' ')
         };
         if !line.is_empty() {
             lines.push(line);
